@@ -316,6 +316,11 @@ impl<'tcx> Cx<'tcx> {
                         kv.push(("ak", esc("adt")));
                         kv.push(("adt", esc(&self.path(*adid))));
                         kv.push(("variant", esc(&var.name.to_string())));
+                        kv.push(("vidx", format!("{}", vidx.as_u32())));
+                        if adt.is_enum() {
+                            let d = adt.discriminant_for_variant(tcx, *vidx);
+                            kv.push(("discr", esc(&format!("{}", d.val))));
+                        }
                         let names: Vec<String> = if let Some(a) = active {
                             vec![esc(&var.fields[*a].name.to_string())]
                         } else {
